@@ -99,9 +99,21 @@ def Dose.blocks : Dose → List Nat → List Dose
   | .scalar d, _ => [.scalar d]
   | .dist vs, cs => (splitBy cs vs).map .dist
 
-/-- rebuilding the transform for a block: `NoiseTransform(dose=block, samples=<whole axis>, seeds=block)`.
-A block of an already validated seed distribution is accepted as it is. -/
-def rebuildOk (_total : Nat) (_blk : Seeds) : Bool := true
+/-- Rebuilding the transform for one block, `NoiseTransform(dose=block, samples=<self.samples of the whole transform>, seeds=block)`,
+follows the branches of `NoiseTransform.__init__`:
+* an int / None seed with `samples == 1` is kept;
+* a block of the (already validated) seed distribution is accepted as it is — the branch added by fix 7971a31d;
+* an int / None seed with `samples > 1` would draw `samples` new seeds (`validate_seeds`); blocks never get there because a
+  scalar seed means `self.samples == 1`; it is an error of the model. -/
+def rebuild (samples : Nat) : Seeds → Except String Seeds
+  | .scalar s => if samples = 1 then .ok (.scalar s) else .error "draws_new_seeds"
+  | .dist vs => .ok (.dist vs)
+
+/-- the same constructor before fix 7971a31d: a distribution went through `validate_seeds(seeds, samples)`, which asserts
+`samples == len(seeds)` — false for every proper block of the sample axis -/
+def rebuildPreFix (samples : Nat) : Seeds → Except String Seeds
+  | .scalar s => if samples = 1 then .ok (.scalar s) else .error "draws_new_seeds"
+  | .dist vs => if vs.length = samples then .ok (.dist vs) else .error "assertion_error"
 
 /-- concatenation of the block results along the dose, sample and item axes; `blk a b c D S I` is the result of the
 block with chunk indices `(a, b, c)` -/
@@ -121,10 +133,12 @@ def blockId (seeds : Seeds) (dose : Dose) (baseDims a b c : Nat) : List Nat :=
 The result is assembled along the three chunked axes. -/
 def lazyEval (K : Kernels) (seeds : Seeds) (dose : Dose) (ch : Chunking) (ent : Nat → Nat) (items : List (List Rat)) :
     Except String (Arr4 Int) :=
-  if (seeds.blocks ch.samples).any (fun b => !rebuildOk seeds.count b) then .error "assertion_error" else
-  .ok <| assemble (dose.blocks ch.dose) (seeds.blocks ch.samples) (splitBy ch.items items) fun a b c D S I =>
-    calcBlock K S D (blockKey (blockId seeds dose ch.baseDims a b c))
-      (ent ((a * (seeds.blocks ch.samples).length + b) * (splitBy ch.items items).length + c)) I
+  match (seeds.blocks ch.samples).mapM (rebuild seeds.count) with
+  | .error e => .error e
+  | .ok sB =>
+    .ok <| assemble (dose.blocks ch.dose) sB (splitBy ch.items items) fun a b c D S I =>
+      calcBlock K S D (blockKey (blockId seeds dose ch.baseDims a b c))
+        (ent ((a * sB.length + b) * (splitBy ch.items items).length + c)) I
 
 /-! ### the tagging kernels used by the driver (mirrored by the harness' fake `np.random`) -/
 
